@@ -14,7 +14,8 @@ def req_term(sym):
     if sym.startswith("enc:"):
         return "QEncrypt %d" % int(sym[4:])
     _, a, b, v = sym.split(":")
-    return "QDecrypt (%s)" % {"g": "RG %s %s" % (a, b), "bad": "RBad %s %s" % (a, b), "none": "RNone"}[v]
+    # every structurally incomplete or corrupt record is one the abstract session refuses (RBad)
+    return "QDecrypt (%s)" % {"g": "RG %s %s" % (a, b), "none": "RNone"}.get(v, "RBad %s %s" % (a, b))
 
 
 PART = {"a": 1, "bb": 2}
@@ -81,7 +82,7 @@ def main(tier, seed, replay):
     ck.cov.update({
         "evaluations": len(cases), "distinct_nontrivial": len(nt), "exhaustive": True,
         "rule": "ALL sequences up to length %d over {get-session a/bb/empty id, encrypt, decrypt genuine own / genuine foreign partition / corrupt / "
-                "empty record, empty request} plus random sequences of 4-15 requests, each on its own stream of one server; end-of-stream after each; "
+                "empty record / record without parent key meta / record without key, empty request} plus random sequences of 4-15 requests, each on its own stream of one server; end-of-stream after each; "
                 "non-trivial = distinct sequence with at least one successful encrypt/decrypt" % (3 if tier == "quick" else 5),
         "traces_validated_against_impl": len(cases) - len(bad),
         "samples": cases[40:43],
